@@ -977,11 +977,21 @@ class TorControlProtocol(LineOnlyReceiver):
         # print "startCommand",self.code,line
         self.code = int(line[:3])
         # print "startCommand:",self.code
-        if self.command and self.command[2] is not None:
+        if self._wants_lines():
             self.command[2](line[4:])
         else:
             self.response = line[4:] + '\n'
         return None
+
+    def _wants_lines(self):
+        """
+        True if the line being processed belongs to the reply of an
+        in-flight command that has a per-line callback (lines of
+        asynchronous 600-level events never do).
+        """
+        if self.code is not None and 600 <= self.code < 700:
+            return False
+        return bool(self.command and self.command[2] is not None)
 
     def _is_continuation_line(self, line):
         "for FSM"
@@ -1005,7 +1015,7 @@ class TorControlProtocol(LineOnlyReceiver):
         # a leading period was doubled by the sender
         if line.startswith('.'):
             line = line[1:]
-        if self.command and self.command[2] is not None:
+        if self._wants_lines():
             self.command[2](line)
 
         else:
@@ -1014,7 +1024,7 @@ class TorControlProtocol(LineOnlyReceiver):
 
     def _accumulate_response(self, line):
         "for FSM"
-        if self.command and self.command[2] is not None:
+        if self._wants_lines():
             self.command[2](line[4:])
 
         else:
